@@ -179,6 +179,7 @@ class ServeMultiPeriodManifest(RequestHandlerBase):
                 return flask.make_response(
                     f'timing_reference of period {html.escape(period.pid)} ' +
                     'has not been configured', 404)
+        options.remove_unused_parameters(mode)
         dash = ManifestContext(
             manifest=current_manifest, options=options, stream=None,
             multi_period=current_mps)
